@@ -86,6 +86,7 @@ class Body:
         self.n = len(self.blocks)
         self.ssa_split = []
         self.threaded = 0
+        self.rolled = 0
         self._raw = None
         self._reset()
         if ssa:
@@ -109,6 +110,25 @@ class Body:
         private = False
         has_bool_store = False
         cnt = {}
+        # `for x in it { acc.push(x) }` -> `acc.extend(it)` (purlsa.roll)
+        has_next = has_push = False
+        for bl in self.blocks:
+            t = bl["term"]
+            if t["t"] == "call" and not bl["cleanup"]:
+                ce = t["callee"]
+                if ce.get("item") == "next":
+                    has_next = True
+                pth = (ce.get("resolved") or {}).get("path") or ce.get("path") or ""
+                if pth.endswith("::push"):
+                    has_push = True
+        if has_next and has_push:
+            from . import roll
+            self.blocks = copy.deepcopy(self.blocks)
+            self.locals = copy.deepcopy(self.locals)
+            private = True
+            self._reset()
+            self.rolled = roll.roll_push_loops(self)
+            self._reset()
         for bl in self.blocks:
             if bl["cleanup"]:
                 continue
@@ -127,19 +147,20 @@ class Body:
                     has_bool_store = True
         if has_bool_store:
             from . import thread
-            self.blocks = copy.deepcopy(self.blocks)
-            self.locals = copy.deepcopy(self.locals)
+            if not private:
+                self.blocks = copy.deepcopy(self.blocks)
+                self.locals = copy.deepcopy(self.locals)
             private = True
             self._reset()
             self.threaded = thread.thread_bools(self)
             self.n = len(self.blocks)
             self._reset()
         if not any(c >= 2 and l > self.arg_count for l, c in cnt.items()):
-            self.ssa_split = ["<threaded>"] if private and self.threaded else []
+            self.ssa_split = ["<threaded>"] if private and (self.threaded or self.rolled) else []
             return
         from . import ssa
         if not ssa.candidates(self):
-            self.ssa_split = ["<threaded>"] if private and self.threaded else []
+            self.ssa_split = ["<threaded>"] if private and (self.threaded or self.rolled) else []
             return
         if not private:
             self.blocks = copy.deepcopy(self.blocks)
@@ -857,8 +878,41 @@ def show_val(v):
     return repr(v)
 
 
+def _normalise_discriminants(j):
+    """Make `switch discr(x)` test variant *indices*: for enums with explicit discriminant values (core::cmp::Ordering
+    is -1/0/1) the extractor records the values next to the variant names; the arm values of the switch that tests such a
+    discriminant are translated to indices once, here, so that every consumer can index `variants` with them."""
+    if j.get("_discr_normalised"):
+        return
+    for b in j["bodies"].values():
+        dl = {}
+        for bl in b["blocks"]:
+            for st in bl["stmts"]:
+                if st.get("s") == "assign" and not st["place"]["proj"] and st["rv"].get("r") == "discr" and st["rv"].get("discrs") is not None:
+                    ds = st["rv"]["discrs"]
+                    if ds != list(range(len(ds))):
+                        dl[st["place"]["l"]] = ds
+        if not dl:
+            continue
+        for bl in b["blocks"]:
+            t = bl["term"]
+            if t.get("t") == "switch" and t["discr"].get("o") in ("copy", "move") and not t["discr"]["place"]["proj"] and t["discr"]["place"]["l"] in dl:
+                ds = dl[t["discr"]["place"]["l"]]
+                bits = {"i8": 8, "u8": 8, "i16": 16, "u16": 16, "i32": 32, "u32": 32, "i64": 64, "u64": 64, "isize": 64, "usize": 64, "i128": 128, "u128": 128}.get(t.get("discr_ty"), 128)
+                mask = (1 << bits) - 1
+                norm_ds = [d & mask for d in ds]
+                new = []
+                for (v, tg) in t["arms"]:
+                    vv = v & mask
+                    new.append([norm_ds.index(vv) if vv in norm_ds else -1 - len(new), tg])
+                t["arms"] = new
+                t["discr_remapped"] = True
+    j["_discr_normalised"] = True
+
+
 class Facts:
     def __init__(self, j, path=None):
+        _normalise_discriminants(j)
         self.j = j
         self.path = path
         self.features = j["features"]
